@@ -8,7 +8,7 @@ open Occa.Gen
 
 /-! ### NUL-free strings -/
 
-def NoNul (r : Str) : Prop := ∀ c ∈ r, c ≠ NUL
+abbrev NoNul (r : Str) : Prop := ∀ c ∈ r, c ≠ NUL
 
 theorem NoNul.suffix {r' r : Str} (h : NoNul r) (s : Suffix r' r) : NoNul r' := by
   obtain ⟨w, rfl⟩ := s
